@@ -291,6 +291,19 @@ def sweep_cases(tier, shard, nshards):
                 i += 1
 
 
+def check_offtype(case):
+    """a value outside the slot's annotated type: whatever the library *accepts* must still
+    come back on the same channel, in the same class and equal in value (the weaker, sound
+    form of the type-exact oracle, which is only stated for the annotated types)"""
+    from pbt.props import c10
+    return c10.check_slot(case)
+
+
+def offtype_cases(tier, shard, nshards):
+    from pbt.props import c10
+    return c10.offtype_sweep(tier, shard, nshards)
+
+
 COMPONENTS = [
     Component('bitvectors', check, cases=sweep_cases, nontrivial=nontrivial,
               classes=classes,
@@ -312,6 +325,10 @@ COMPONENTS = [
               budget={'quick': 1600, 'thorough': 32000},
               describe='frames whose table arguments call back into the library (encode '
                        'and decode another frame on the same thread) while being encoded'),
+    Component('accepted-offtypes', check_offtype, cases=offtype_cases,
+              shards={'quick': 8, 'thorough': 8},
+              describe='every non-bit slot of every class x values of every other Python '
+                       'type: refused, or accepted and decoded equal'),
     Component('surrogates', check_lenient, strategy=lenient_cases,
               classes=lambda c: ['class=' + c['cls'].split('.')[0]],
               budget={'quick': 6400, 'thorough': 160000},
